@@ -570,6 +570,17 @@ func (s *clientSocket) onEvent(
 		return s.callEvent(handler, header, values, sendAck)
 	} else {
 		s.receiveBufferMu.Lock()
+		// The socket can get connected between the check above and here, on the goroutine of the CONNECT packet.
+		// `emitBuffered` might have already run, and the event would stay in the buffer. So check again, this time
+		// with `receiveBufferMu` held: `emitBuffered` runs after the state is set and takes the same mutex, so
+		// whatever is put into the buffer while the socket is seen as not connected here will be seen by `emitBuffered`.
+		s.stateMu.RLock()
+		connected = s.state == clientSocketConnStateConnected
+		s.stateMu.RUnlock()
+		if connected {
+			s.receiveBufferMu.Unlock()
+			return s.callEvent(handler, header, values, sendAck)
+		}
 		defer s.receiveBufferMu.Unlock()
 		s.receiveBuffer = append(s.receiveBuffer, &clientEvent{
 			handler: handler,
